@@ -7,11 +7,15 @@
      sequences: element-wise through swap_deep, or by handing over the two heap buffers together with size and capacity
      words when both own one and the allocator types agree - re-tested after the capacity adjustment, as the code does), or
    - throws the limit exception of the side that cannot hold the other's elements (out_of_range of a fixed capacity,
-     overflow_error of a size_type, also from the capacity-word exchange), in which case both vectors are well formed with
-     their ORIGINAL sizes (contents untouched; the first operand may have grown its capacity).
-   [C13_exchange_checks_ranges]: the buffer exchange throws exactly when a capacity does not fit the other size_type,
-   compared by the maxima of the types (a uint8_t / int8_t pair used to be exchanged unchecked), and never after a word has
-   been written.  No element is lost, duplicated, leaked or destroyed twice: decided on the implementation by the identity
+     overflow_error of a size_type) - and ONLY when that side's limit is below the other's size, i.e. when the exchange is
+     impossible -, in which case both vectors are well formed with their ORIGINAL sizes (contents untouched; the first
+     operand may have grown its capacity).
+   [C13_possible_exchange_succeeds]: when each size is within the other's limit swap2 succeeds (before the repair
+   "swap2 falls back to element-wise swap when a capacity does not fit the other size_type" two heap vectors whose
+   CAPACITY did not fit the other size_type threw although the sizes did: the cross-type oracle found it, 344 cases).
+   [C13_exchange_checks_ranges]: the raw buffer exchange (two swap_sizetype calls) throws exactly when a capacity does not
+   fit the other size_type, compared by the maxima of the types (a uint8_t / int8_t pair used to be exchanged unchecked),
+   and never after a word has been written; [C13_exchange_guarded]: under canExchangeDynStorage it never throws.  No element is lost, duplicated, leaked or destroyed twice: decided on the implementation by the identity
    ledger of the cross-type driver over every pair of 8 vector types x operand states x sizes. *)
 From Coq Require Import ZArith List Bool.
 From Amc Require Import GenPrelude Words VecModel VecProofs Swap2.
@@ -24,9 +28,21 @@ Theorem C13_swap2 :
     | inl (t', o', _, _) => BInv c1 t' /\ BInv c2 o' /\ b_size c1 t' = b_size c2 o /\ b_size c2 o' = b_size c1 t
     | inr (e, t', o', _, _) =>
         BInv c1 t' /\ BInv c2 o' /\ b_size c1 t' = b_size c1 t /\ b_size c2 o' = b_size c2 o /\
-        (e = lim_exn c1 \/ e = lim_exn c2 \/ e = OverflowError)
+        ((e = lim_exn c1 /\ b_limit c1 < b_size c2 o) \/ (e = lim_exn c2 /\ b_limit c2 < b_size c1 t))
     end.
 Proof. exact swap2x_ok. Qed.
+
+Theorem C13_possible_exchange_succeeds :
+  forall c1 c2, cfg_ok c1 -> cfg_ok c2 -> forall t o, BInv c1 t -> BInv c2 o ->
+    b_size c2 o <= b_limit c1 -> b_size c1 t <= b_limit c2 ->
+    exists t' o' e1 e2, swap2x c1 c2 t o = inl (t', o', e1, e2).
+Proof. exact swap2x_total. Qed.
+
+Theorem C13_exchange_guarded :
+  forall c1 c2, cfg_ok c1 -> cfg_ok c2 -> forall t o, BInv c1 t -> BInv c2 o -> can_exchange_x c1 c2 t o = true ->
+    exists t' o', exchange_buffers c1 c2 t o = inl (t', o') /\ BInv c1 t' /\ BInv c2 o' /\
+                  b_size c1 t' = b_size c2 o /\ b_size c2 o' = b_size c1 t.
+Proof. exact exchange_never_throws. Qed.
 
 Theorem C13_exchange_checks_ranges :
   forall c1 c2, cfg_ok c1 -> cfg_ok c2 -> forall t o, BInv c1 t -> BInv c2 o -> can_swap_dyn_x c1 c2 t o = true ->
@@ -36,10 +52,21 @@ Theorem C13_exchange_checks_ranges :
     end.
 Proof. exact exchange_ok. Qed.
 
-(* non-vacuity: vector<uint8_t size type> holding 200 elements (capacity 210) x SmallVector<_,2,int8_t size type> on the heap *)
+Theorem C13_guard_is_the_regenerated_one :
+  forall c1 c2 t o, exchange_buffers c1 c2 t o =
+    match SwapGuardTV.swap_st (cM c1) (cM c2) (capa_ t) (capa_ o), SwapGuardTV.swap_st (cM c1) (cM c2) (size_ t) (size_ o) with
+    | Some (ct, co), Some (st, so) => inl ({| capa_ := ct; size_ := st |}, {| capa_ := co; size_ := so |})
+    | _, _ => inr OverflowError
+    end.
+Proof. exact exchange_is_swap_st. Qed.
+
+(* non-vacuity: vector<uint8_t size type> holding 200 elements (capacity 210) x SmallVector<_,2,int8_t size type> on the heap:
+   impossible (200 > 127); with 100 elements in a capacity of 210 it is possible although 210 > 127: element-wise *)
 Example C13_example :
   let c1 := {| fl := FVec; cN := 0; cM := 255; csigned := false; ccat := TC; calloc := AAmc |} in
   let c2 := {| fl := FSV; cN := 2; cM := 127; csigned := true; ccat := TC; calloc := AAmc |} in
   match swap2x c1 c2 {| capa_ := 210; size_ := 200 |} {| capa_ := 5; size_ := 5 |} with
-  | inr (e, _, _, _, _) => e = OverflowError | inl _ => False end.
-Proof. vm_compute. reflexivity. Qed.
+  | inr (e, _, _, _, _) => e = OverflowError | inl _ => False end /\
+  match swap2x c1 c2 {| capa_ := 210; size_ := 100 |} {| capa_ := 5; size_ := 5 |} with
+  | inl (t', o', _, _) => b_size c1 t' = 5 /\ b_size c2 o' = 100 /\ capa_ t' = 210 | inr _ => False end.
+Proof. vm_compute. repeat split; reflexivity. Qed.
